@@ -35,7 +35,8 @@ OPN = {1: "vec_znx_normalize", 2: "vec_znx_normalize_assign", 3: "vec_znx_rsh", 
        101: "lwe_encrypt_sk", 102: "lwe_decrypt", 103: "glwe_encrypt_sk", 104: "glwe_encrypt_pk", 105: "glwe_decrypt",
        106: "glwe_keyswitch", 107: "glwe_keyswitch_assign", 108: "glwe_external_product", 109: "glwe_external_product_assign",
        110: "glwe_automorphism", 111: "glwe_automorphism_add", 112: "glwe_trace", 113: "glwe_normalize", 114: "glwe_rsh",
-       115: "glwe_rotate_assign", 116: "glwe_mul_const", 117: "glwe_lsh_assign", 118: "glwe_public_key_generate"}
+       115: "glwe_rotate_assign", 116: "glwe_mul_const", 117: "glwe_lsh_assign", 118: "glwe_public_key_generate", 120: "gglwe_prepare", 121: "ggsw_prepare", 122: "gglwe_keyswitch",
+       123: "gglwe_external_product", 124: "ggsw_external_product", 125: "glwe_mul_plain", 126: "glwe_tensor_apply"}
 
 
 def _parse(record):
@@ -73,6 +74,8 @@ def classify(record):
         return f"{name}.unaligned"
     if op == 116:
         return "glwe_mul_const.underestimate"
+    if op in (125, 126):
+        return f"{name}.cnv_args_swapped"
     if op == 112:
         return "glwe_trace.inner_assert"
     if n < 8:
